@@ -505,3 +505,117 @@ mod tests {
         });
     }
 }
+
+/// Verification hooks (feature `verif-hooks`): read-only views of pool internals.
+#[cfg(feature = "verif-hooks")]
+pub(super) mod verif {
+    use std::ptr::NonNull;
+
+    use super::{Arena, Pool, PoolSet};
+
+    pub const CLASS_COUNT: u32 = super::CLASS_COUNT;
+
+    pub fn slot_sizes() -> Vec<u32> {
+        super::SLOT_SIZES.to_vec()
+    }
+
+    pub fn slot_counts() -> Vec<u32> {
+        super::SLOT_COUNTS.to_vec()
+    }
+
+    pub fn size_class(n: u32) -> Option<u32> {
+        super::size_class(n)
+    }
+
+    /// Counters and geometry of one pool.
+    #[derive(Debug, Clone, Copy, PartialEq, Eq)]
+    pub struct PoolStats {
+        pub live: u32,
+        pub free: u32,
+        pub bump: u32,
+        pub slot_size: u32,
+        pub slot_count: u32,
+    }
+
+    fn stats_of(p: &Pool) -> PoolStats {
+        PoolStats {
+            live: p.live_count.get(),
+            free: p.free.len(),
+            bump: p.block.bump.get(),
+            slot_size: p.block.slot_size,
+            slot_count: p.block.slot_count,
+        }
+    }
+
+    /// A single pool with caller-chosen geometry.
+    pub struct HookPool(Pool);
+
+    impl HookPool {
+        #[must_use]
+        pub fn new(arena: &Arena, slot_size: u32, slot_count: u32) -> Self {
+            Self(Pool::new(arena, slot_size, slot_count))
+        }
+
+        #[must_use]
+        pub fn alloc(&self) -> Option<NonNull<[u8]>> {
+            self.0.alloc()
+        }
+
+        /// # Safety
+        /// Same contract as the private `Pool::dealloc`.
+        pub unsafe fn dealloc(&self, ptr: NonNull<u8>) {
+            unsafe { self.0.dealloc(ptr) }
+        }
+
+        #[must_use]
+        pub fn contains(&self, ptr: *const u8) -> bool {
+            self.0.contains(ptr)
+        }
+
+        #[must_use]
+        pub fn base(&self) -> *const u8 {
+            self.0.block.base.as_ptr()
+        }
+
+        #[must_use]
+        pub fn stats(&self) -> PoolStats {
+            stats_of(&self.0)
+        }
+    }
+
+    /// The 20-class pool set the runtime uses.
+    pub struct HookPoolSet<'a>(PoolSet<'a>);
+
+    impl<'a> HookPoolSet<'a> {
+        #[must_use]
+        pub fn new(arena: &'a Arena) -> Self {
+            Self(PoolSet::new(arena))
+        }
+
+        #[must_use]
+        pub fn alloc(&self, size: u32) -> NonNull<[u8]> {
+            self.0.alloc(size)
+        }
+
+        /// # Safety
+        /// Same contract as the private `PoolSet::dealloc`.
+        pub unsafe fn dealloc(&self, ptr: NonNull<u8>, size: u32) {
+            unsafe { self.0.dealloc(ptr, size) }
+        }
+
+        #[must_use]
+        pub fn contains(&self, ptr: *const u8) -> bool {
+            self.0.contains(ptr)
+        }
+
+        #[must_use]
+        pub fn class_base(&self, class: u32) -> *const u8 {
+            self.0.pools[class as usize].block.base.as_ptr()
+        }
+
+        #[must_use]
+        pub fn stats(&self, class: u32) -> PoolStats {
+            stats_of(&self.0.pools[class as usize])
+        }
+    }
+}
